@@ -161,6 +161,34 @@ def make(cls, max_iter, seed, variant):
             ap = app.LinearLeastSquares(Aop, y1, proxg=prox.L1Reg([n, 1], 0.05), solver="ADMM", max_iter=max_iter, max_cg_iter=3, show_pbar=False)
         sol = (lambda: [ap.alg.x, ap.alg.u]) if solver == "PrimalDualHybridGradient" else (lambda: [ap.x])
         return ap, sol, True
+    if cls.startswith("MRI_"):
+        import sigpy.mri as mr
+
+        rs = np.random.RandomState(seed)
+        shape = (6, 6) if variant % 2 == 0 else (5, 6)
+        nc = 3
+        mps = rs.randn(nc, *shape) + 1j * rs.randn(nc, *shape)
+        img = rs.randn(*shape) + 1j * rs.randn(*shape)
+        ksp = sp.fft(mps * img, axes=(-2, -1))
+        if variant % 3 == 1:
+            ksp = ksp * (rs.rand(*shape) < 0.7)
+        name = cls[4:]
+        if name == "SenseRecon":
+            ap = mr.app.SenseRecon(ksp, mps, lamda=[0.0, 0.01][variant % 2], max_iter=max_iter, show_pbar=False)
+            return ap, lambda: [ap.x], True
+        if name == "L1WaveletRecon":
+            ap = mr.app.L1WaveletRecon(ksp, mps, [0.01, 1e4][variant % 2], wave_name="haar", max_iter=max_iter, show_pbar=False)
+            return ap, lambda: [ap.x], True
+        if name == "TotalVariationRecon":
+            ap = mr.app.TotalVariationRecon(ksp, mps, 0.01, max_iter=max_iter, show_pbar=False)
+            return ap, lambda: [ap.alg.x, ap.alg.u], True
+        if name == "JsenseRecon":
+            ap = mr.app.JsenseRecon(ksp, mps_ker_width=4, ksp_calib_width=6, lamda=0.01, max_iter=max_iter, max_inner_iter=3, show_pbar=False)
+            return ap, lambda: [ap.mps_ker, ap.img_ker], True
+        if name == "EspiritCalib":
+            ap = mr.app.EspiritCalib(ksp, calib_width=6, kernel_width=3, max_iter=max_iter, show_pbar=False)
+            return ap, lambda: [ap.alg.x], True
+        raise KeyError(cls)
     if cls == "L2ConstrainedMinimization":
         ap = app.L2ConstrainedMinimization(Aop, y1, prox.L1Reg([n, 1], 1.0), 0.1, max_iter=max_iter, show_pbar=False)
         return ap, lambda: [ap.x, ap.u], True
@@ -218,6 +246,10 @@ def main():
                         out = obj.run()
                         held = obj._output()
                         same = out is held or (np.isscalar(out) and out == held)
+                        if not same and job["cls"].startswith("MRI_") and not np.isscalar(out):
+                            # these apps compute their output from the held state on every call (normalised maps): compare values
+                            same = all(np.shape(a_) == np.shape(b_) and np.allclose(a_, b_, rtol=1e-12, atol=1e-12, equal_nan=True)
+                                       for a_, b_ in zip(out if isinstance(out, tuple) else (out,), held if isinstance(held, tuple) else (held,)))
                         rec["obs"].append(["run", int(a.iter), bool(same)])
             if job.get("probe") and job["cls"] != "FailingAlg":
                 d = a.done()
